@@ -161,6 +161,8 @@ def c_to_s(ctx: Ctx):
         ev = r.event or {}
         ctx.violation(f"trace|{ev.get('a')}", f"recorded history {r.index}: events 1..{r.upto} are a behaviour of PubSub.tla, event {r.upto + 1} {ev} is not "
                       f"(invariant={getattr(r, 'invariant', None)})", {"trace": r.trace, "explained": r.upto})
+    if ctx.violations:
+        return
     # self-test: drop one Deliver / corrupt a listener
     bad = []
     rejected = {r.index for r in rej}
